@@ -243,13 +243,20 @@ def op_chain(t):
             snap = snapshot(w)
             if w is not None:
                 snaps.append((w, snap))
+            # the events argument in the form the piece asks for (file forms read events_<k>.tab.gz; the
+            # in-memory forms carry what that file reads back as)
+            form = pc.get('form', 'path')
+            evs = [(list(c), list(o)) for c, o in pc['events']]
+            arg = {'path': path, 'pathobj': __import__('pathlib').Path(path), 'list': evs,
+                   'generator': (e for e in evs)}[form]
+            path_or_events = arg
             try:
                 if pc['learner'] == 'dict_ndl':
-                    w2 = ndl.dict_ndl(path, fl(t['alpha']), (fl(t['beta1']), fl(t['beta2'])), fl(t['lambda']),
+                    w2 = ndl.dict_ndl(path_or_events, fl(t['alpha']), (fl(t['beta1']), fl(t['beta2'])), fl(t['lambda']),
                                       weights=w, remove_duplicates=POLICY[t['policy']],
                                       make_data_array=bool(pc.get('make_data_array', False)))
                 else:
-                    w2 = ndl.ndl(path, fl(t['alpha']), (fl(t['beta1']), fl(t['beta2'])), fl(t['lambda']),
+                    w2 = ndl.ndl(path_or_events, fl(t['alpha']), (fl(t['beta1']), fl(t['beta2'])), fl(t['lambda']),
                                  method=pc['method'], weights=w, n_jobs=int(pc.get('n_jobs', 2)),
                                  n_outcomes_per_job=int(pc.get('per_job', 10)),
                                  remove_duplicates=POLICY[t['policy']],
